@@ -277,6 +277,7 @@ class FakeSnowflakeCursor:
             # duckdb is now on the database's main schema, so the previous schema is no longer current
             self._conn.schema = None
             self._conn.schema_set = False
+            result_sql = SQL_SUCCESS
 
         elif set_schema := transformed.args.get("set_schema"):
             self._conn.schema = set_schema
@@ -284,6 +285,7 @@ class FakeSnowflakeCursor:
             if set_schema_database := transformed.args.get("set_schema_database"):
                 self._conn.database = set_schema_database
                 self._conn.database_set = True
+            result_sql = SQL_SUCCESS
 
         elif create_db_name := transformed.args.get("create_db_name"):
             # we created a new database, so create the info schema extensions
@@ -301,6 +303,10 @@ class FakeSnowflakeCursor:
         elif cmd == "DELETE":
             (affected_count,) = self._duck_conn.fetchall()[0]
             result_sql = SQL_DELETED_ROWS.substitute(count=affected_count)
+
+        elif cmd in ("TRANSACTION", "COMMIT", "ROLLBACK", "TRUNCATETABLE"):
+            # snowflake returns the success status, duckdb an empty result or a count
+            result_sql = result_sql or SQL_SUCCESS
 
         elif cmd in ("DESCRIBE TABLE", "DESCRIBE VIEW"):
             # DESCRIBE TABLE/VIEW has already been run above to detect and error if the table exists
